@@ -604,6 +604,163 @@ def race_case(case):
 
 
 # ==========================================================================================
+# (r) reader formats: every record reader (and every decompressing path) has its own batching goroutine; monitor a draws
+#     only dkvp / json / csv input. Here each reader gets inputs that span many batches, the chain is the identity, and the
+#     output must (1) equal the generator's own record list, id by id, field by field - so a record lost, repeated or
+#     overwritten at a batch hand-over is seen even when every batch size shows the same damage - and (2) be byte-identical
+#     at every batch size; the same commands run under the race detector (a reader that goes on writing into a batch it has
+#     already handed downstream is a data race whichever way the timing falls).  Added after seeded change C04r3-a.
+
+READER_FORMATS = ["dkvp", "nidx", "csv", "csvlite", "tsv", "json", "jsonl", "xtab", "pprint", "markdown",
+                  "dkvp-gz", "dkvp-bz2", "dkvp-z", "csv-gz", "xtab-gz", "json-gz"]
+
+
+def _reader_text(fmt, recs):
+    """rectangular records with simple non-empty values -> (input bytes, main flags, expected records)."""
+    base = fmt.split("-")[0]
+    hdr = [k for k, _ in recs[0]] if recs else []
+    rows = [[v for _, v in r] for r in recs]
+    exp = recs
+    if base == "dkvp":
+        text, flags = gen.dkvp(recs), ["--idkvp"]
+    elif base == "nidx":
+        text, flags = "".join(" ".join(r) + "\n" for r in rows), ["--inidx", "--ifs", " "]
+        exp = [[(str(j + 1), v) for j, v in enumerate(r)] for r in rows]
+    elif base in ("csv", "csvlite"):
+        text, flags = (",".join(hdr) + "\n" + "".join(",".join(r) + "\n" for r in rows) if recs else ""), ["--i" + base]
+    elif base == "tsv":
+        text, flags = ("\t".join(hdr) + "\n" + "".join("\t".join(r) + "\n" for r in rows) if recs else ""), ["--itsv"]
+    elif base == "json":
+        text, flags = (gen.json_text(recs, as_strings=True) if recs else ""), ["--ijson"]
+    elif base == "jsonl":
+        import json
+        text = "".join("{" + ", ".join(json.dumps(k) + ": " + json.dumps(v) for k, v in r) + "}\n" for r in recs)
+        flags = ["--ijsonl"]
+    elif base == "xtab":
+        text, flags = "\n".join("".join(f"{k} {v}\n" for k, v in r) for r in recs), ["--ixtab"]
+    elif base == "pprint":
+        text, flags = (" ".join(hdr) + "\n" + "".join(" ".join(r) + "\n" for r in rows) if recs else ""), ["--ipprint"]
+    elif base == "markdown":
+        text = ("| " + " | ".join(hdr) + " |\n| " + " | ".join("---" for _ in hdr) + " |\n" +
+                "".join("| " + " | ".join(r) + " |\n" for r in rows)) if recs else ""
+        flags = ["--imd"]
+    data = text.encode()
+    name = "in." + base
+    if fmt.endswith("-gz"):
+        import gzip
+        data, flags, name = gzip.compress(data), ["--gzin"] + flags, name + ".gz"
+    elif fmt.endswith("-bz2"):
+        import bz2
+        data, flags, name = bz2.compress(data), ["--bz2in"] + flags, name + ".bz2"
+    elif fmt.endswith("-z"):
+        import zlib
+        data, flags, name = zlib.compress(data), ["--zin"] + flags, name + ".z"
+    return data, flags, name, exp
+
+
+def reader_case(case):
+    rng = random.Random(case["seed"])
+    fmt, n, race = case["fmt"], case["n"], case.get("race", False)
+    res = case_result(_h("r", fmt, n, race, case["seed"]), nontrivial=n > 500)
+    recs = []
+    for j in range(n):
+        recs.append([("id", f"r{j + 1}"), ("a", rng.choice(gen.A_POOL)), ("i", str(rng.randint(-20, 60))),
+                     ("x", f"{rng.uniform(-5, 5):.4f}"), ("s", rng.choice(["u", "vv", "www", "0x1F", "q-r"]))])
+    data, iflags, name, exp = _reader_text(fmt, recs)
+    want = gen.dkvp(exp).encode()
+    nfiles = case.get("nfiles", 1)
+    compressed = "-" in fmt
+    use_stdin = (not compressed) and nfiles == 1 and rng.random() < 0.5
+    if nfiles == 2:
+        # the same file twice: reader state must be rebuilt per file; expected = the list twice
+        files = {name: data, "again-" + name: data}
+        want = want + want
+        if fmt.startswith(("csv", "tsv", "pprint", "markdown")):
+            pass    # same header in both files: one output stream in dkvp, nothing else changes
+    else:
+        files = {name: data}
+    bss = case["bs"]
+    ref = None
+    for b in bss:
+        vflags = ["--records-per-batch", str(b)] if b else []
+        argv = vflags + iflags + ["--odkvp", "cat"] + ([] if use_stdin else sorted(files, key=lambda s: s.startswith("again-")))
+        env = {"MLR_VERIF_SCHED": case["sched"]} if case.get("sched") else {}
+        if use_stdin:
+            r = R.mlr(argv, stdin=data, env=env, binary="mlr-race" if race else "mlr-verif", cpu_s=120 if race else 30, watchdog=240 if race else 90)
+        else:
+            r = R.mlr(argv, files=files, env=env, binary="mlr-race" if race else "mlr-verif", cpu_s=120 if race else 30, watchdog=240 if race else 90)
+        bump(res, "runs")
+        bump(res, "reader:" + fmt)
+        detail = {"argv": argv, "format": fmt, "n_records": n, "batch": b, "stdin_used": use_stdin, "binary": "mlr-race" if race else "mlr-verif",
+                  "input_head": data[:600].decode("utf-8", "replace") if not compressed else f"<{len(data)} compressed bytes; regenerate from the case seed>",
+                  "env": env}
+        if _hang_violation(res, r, argv, f"reader {fmt} batch {b}", detail):
+            continue
+        if r.verdict != "exited":
+            res["inconc"] += 1
+            continue
+        if race:
+            bump(res, "race_executions")
+            for rep in (r.race_reports or []):
+                for blk in rep.split("WARNING: DATA RACE")[1:]:
+                    if "github.com/johnkerl/miller" not in blk:
+                        continue
+                    import re
+                    top = []
+                    for part in re.split(r"\n\s*\n", blk):
+                        m = re.search(r"^\s+(github\.com/johnkerl/miller/v6/\S+?)\(", part, re.M)
+                        if m and ("Read at" in part or "Write at" in part or "Previous" in part):
+                            top.append(m.group(1).replace("github.com/johnkerl/miller/v6/pkg/", ""))
+                    pair = "|".join(sorted(set(top[:2])))
+                    bump(res, "race_reports")
+                    add_violation(res, {"kind": "data-race", "pair": pair, "reader": fmt.split("-")[0]},
+                                  f"data race reported by the race detector in the {fmt} reader path between {pair}", dict(detail, report=blk[:5000]))
+        if r.crashed():
+            add_violation(res, {"kind": "crash", "reader": fmt}, f"reader {fmt}, batch {b}: crash trace", dict(detail, stderr=r.err[-3000:]))
+            continue
+        if r.rc != 0:
+            add_violation(res, {"kind": "reader-exit", "reader": fmt}, f"reader {fmt}, batch {b}: exit {r.rc} on well-formed input: {r.err.strip()[:200]}",
+                          dict(detail, stderr=r.err[-2000:]))
+            continue
+        if r.stdout != want:
+            got, expl = r.stdout.split(b"\n"), want.split(b"\n")
+            p_ = 0
+            while p_ < len(got) and p_ < len(expl) and got[p_] == expl[p_]:
+                p_ += 1
+            ids = [l.split(b",", 1)[0] for l in got if l]
+            add_violation(res, {"kind": "reader-records", "reader": fmt.split("-")[0]},
+                          f"reader {fmt}, --records-per-batch {b or 'default'}, {n} records: output is not the input's record list: {len(got) - 1} lines "
+                          f"({len(set(ids))} distinct ids) for {len(expl) - 1} expected; first difference at record {p_ + 1}: "
+                          f"got {got[p_][:70] if p_ < len(got) else b'<eof>'!r}, expected {expl[p_][:70] if p_ < len(expl) else b'<eof>'!r}",
+                          dict(detail, got_around=[x.decode("utf-8", "replace") for x in got[max(0, p_ - 2): p_ + 4]],
+                               expected_around=[x.decode("utf-8", "replace") for x in expl[max(0, p_ - 2): p_ + 4]]))
+            continue
+        bump(res, "reader_outputs_equal_to_generated_list")
+        if ref is None:
+            ref = r.stdout
+    res["sample"] = {"monitor": "r", "format": fmt, "n_records": n, "batches": bss, "race": race}
+    return res
+
+
+def reader_cases(chk):
+    rng = chk.rng("readers")
+    q = chk.quick()
+    cases = []
+    for fmt in READER_FORMATS:
+        ns = [rng.choice([499, 500, 501]), rng.choice([1003, 2501]), 6100] if q else [0, 1, 499, 500, 501, 1003, 2501, 6100, 20011]
+        for n in ns:
+            if n > 7000 and fmt in ("pprint", "markdown"):
+                pass
+            bs = [0, 1, 7, 100] if n <= 2600 else [0, 100, 1000]
+            cases.append({"seed": f"{chk.seed}/r/{fmt}/{n}", "fmt": fmt, "n": n, "bs": bs, "nfiles": 2 if (n in (501, 1003)) else 1})
+        # race detector: several batches in flight at once (small batches, multi-thousand records) and the default batch size
+        for n, bs in ([(2501, [7, 0])] if q else [(2501, [7, 100, 0]), (20011, [100, 0])]):
+            cases.append({"seed": f"{chk.seed}/r-race/{fmt}/{n}", "fmt": fmt, "n": n, "bs": bs, "race": True,
+                          "sched": rng.choice(["", f"{rng.randint(1, 10**6)}:300"])})
+    return cases
+
+
+# ==========================================================================================
 # (f) function twins: the same builtin used with different constant arguments in two chained puts
 #     (added after seeded change C16r2-b: a package-level "most recent format -> formatter" cache in the strftime helpers).
 #     Each verb of a chain runs in its own goroutine, so any process-global state inside a builtin (a cache of the last
@@ -908,7 +1065,9 @@ def run(chk):
                 "(head/tee/seqgen/nothing/put -q/failing put) x N around k and batch boundaries x delays at hooked sites; "
                 "c: chains with random verbs/functions under --seed x 5 repetitions; d: race-detector stress list x perturbation seeds; "
                 "e: one-record-at-a-time streaming sessions; f: every builtin function used with two different constant argument sets in chained puts: "
-                "race detector at batch size 2 + differential against the one-batch run. Non-trivial = input spans >= 2 batches and chain has >= 2 verbs or an early-exit verb; "
+                "race detector at batch size 2 + differential against the one-batch run; r: every record reader (dkvp, nidx, csv, csvlite, tsv, json, jsonl, "
+                "xtab, pprint, markdown) and decompressing path (gz, bz2, zlib) on inputs of 499..6100 (thorough 20011) records: identity chain output equal to "
+                "the generator's record list and identical at every batch size, plus the same commands under the race detector. Non-trivial = input spans >= 2 batches and chain has >= 2 verbs or an early-exit verb; "
                 "distinct = by generator seed of the case")
     if not only or "a" in only:
         n = 110 if q else 1400
@@ -935,6 +1094,10 @@ def run(chk):
         chk.pmap(race_case, cases, label="d race")
         if not q:
             regression_corpus_race(chk)
+    if not only or "r" in only:
+        rc_ = reader_cases(chk)
+        chk.extra["r_reader_cases"] = len(rc_)
+        chk.pmap(reader_case, rc_, label="r reader formats")
     if not only or "f" in only:
         fc = func_cases(chk)
         chk.extra["f_function_twins"] = len(fc)
